@@ -192,3 +192,40 @@ func gcBigRow(rt *rapid.T, label string, pk int, who string) (string, []string) 
 	}
 	return fmt.Sprintf("(%d, '%s', %s, %s, %s)", pk, who, doc, bin, js), classes
 }
+
+// ---------------------------------------------------------------------------------------
+// database names: dolt treats database names case-insensitively, the directory on disk keeps the created
+// spelling. Cases draw how the name is created (lower / Mixed / UPPER) and how each session spells it.
+
+// gcDrawDBName returns the created spelling of a fresh database name.
+func gcDrawDBName(rt *rapid.T, srv *vsql.Server, label string) string {
+	base := srv.NewDBName() // c<N>
+	switch rapid.SampledFrom([]string{"lower", "Mixed", "UPPER"}).Draw(rt, label+"_name_case") {
+	case "Mixed":
+		return "Db" + strings.ToUpper(base[:1]) + base[1:] + "x"
+	case "UPPER":
+		return "UP" + strings.ToUpper(base)
+	}
+	return base
+}
+
+// gcSpell returns name as one session spells it: as created, lower-cased or upper-cased.
+func gcSpell(rt *rapid.T, label, name string) string {
+	switch rapid.SampledFrom([]string{"created", "lower", "upper"}).Draw(rt, label+"_spelling") {
+	case "lower":
+		return strings.ToLower(name)
+	case "upper":
+		return strings.ToUpper(name)
+	}
+	return name
+}
+
+func gcNameCase(name string) string {
+	switch {
+	case name == strings.ToLower(name):
+		return "db_name=lower"
+	case name == strings.ToUpper(name):
+		return "db_name=UPPER"
+	}
+	return "db_name=Mixed"
+}
